@@ -171,6 +171,12 @@ def gen_cases(tier, seed):
                           'cseed': rng.randrange(1 << 30)})
             # a redirection installed late, with unread data already queued
             # (more than a receive window was sent meanwhile)
+            if len(cases) % 3 == 1:
+                # ... and output handed to another process's stdin writer
+                c = dict(cases[-1])
+                c['target'] = 'process_writer'
+                c['size'] = [5000, 1, 200000][(len(cases) // 3) % 3]
+                cases.append(c)
             if len(cases) % 3 == 0:
                 c = dict(cases[-1])
                 c['target'] = ['late_client', 'late_server'][
@@ -640,7 +646,8 @@ def _run_redirect(case, mon, viol):
     target = case['target']
     # input=b'' is documented as "no input given" (stdin stays a pipe), so
     # the input-driven targets always send at least one byte
-    size = max(1, case['size']) if target in ('stdin_bytes', 'process') \
+    size = max(1, case['size']) if target in ('stdin_bytes', 'process',
+                                              'process_writer') \
         else case['size']
     data = apps.stream_bytes('r', size)
     tmp = tempfile.mkdtemp(prefix='vf19-', dir=os.environ.get('VF_TMP'))
@@ -676,7 +683,7 @@ def _run_redirect(case, mon, viol):
 
     async def main(loop):
         handler = echo if target in ('stdin_bytes', 'stdin_file',
-                                     'process') else source
+                                     'process', 'process_writer') else source
         sopts = {}
         if target == 'late_server':
             handler = late_sink
@@ -834,6 +841,31 @@ def _run_redirect(case, mon, viol):
                     f.write(data)
                 res = await conn.run('x', stdin=p, encoding=None)
                 got = res.stdout
+            elif target == 'process_writer':
+                # the first process's stdout is written into the second
+                # one's stdin; the first one ends (exit without EOF), and
+                # the second must see all the data and then EOF
+                p2 = await conn.create_process('x', encoding=None)
+                p1 = await conn.create_process('x', input=data or b'z',
+                                               stdout=p2.stdin,
+                                               encoding=None)
+                t = asyncio.ensure_future(p2.stdout.read())
+                env.san.harness_tasks.add(t)
+                await env.settle()
+                if not t.done():
+                    viol.append({
+                        'mechanism': 'redirect_no_eof_downstream',
+                        'detail': f'process_writer: the process fed from '
+                                  f'another process\'s stdout never saw '
+                                  f'EOF (upstream exit status '
+                                  f'{p1.exit_status})'})
+                    t.cancel()
+                    got = data
+                    await asyncio.gather(t, return_exceptions=True)
+                else:
+                    got = t.result()
+                    if not data:
+                        got = b'' if got == b'z' else got
             elif target == 'process':
                 # pipe one SSH process into another
                 p1 = await conn.create_process('x', input=data,
